@@ -29,7 +29,9 @@ func (t *TransactionCancelTimer) Start() error {
 	if t.done != nil {
 		return fmt.Errorf("TransactionCancelTimer already started")
 	}
-	t.done = make(chan struct{})
+	// the goroutine works on its own reference, t.done is only touched under doneMutex
+	done := make(chan struct{})
+	t.done = done
 
 	go func() {
 		timer := time.NewTimer(t.delay)
@@ -43,10 +45,9 @@ func (t *TransactionCancelTimer) Start() error {
 			if t.fnc != nil {
 				t.fnc()
 			}
-		case <-t.done:
+		case <-done:
 			// Stop the timer
 			log.Infof("TransactionCancelTimer stopped")
-			t.done = nil
 		}
 	}()
 
@@ -61,4 +62,6 @@ func (t *TransactionCancelTimer) Stop() {
 		return
 	}
 	close(t.done)
+	// a second Stop() must not close the channel again
+	t.done = nil
 }
